@@ -12,7 +12,7 @@ use std::fmt::Write as _;
 use std::path::{Path, PathBuf};
 use std::process::Command;
 
-pub const RULE: &str = "Domain: generated programs. ok-crate: N = 500 | 5000 invocations of langid! lang! script! region! variant! locale! (single literal) and langids! langid_slice! locales! (2-4 literals, with and without trailing comma) on literals the reference model classifies as well-formed, spelled as plain, raw (r\"..\", r#\"..\"#) or escaped (\\x.., \\u{..}) string literals (proptest grammar strategies with random case / separator masks, und, every extension shape and order incl. tfields followed by -u-/-x-, duplicated and unsorted variants, boundary lengths), each compared at run time with parsing the same literal (==, to_string, hash, per element for lists) inside catch_unwind. bad-crate: M = 400 | 3000 invocations, one per function, on literals the reference puts in must-reject (near-miss mutations, wrong lengths / character classes, foreign and repeated singletons, non-ASCII look-alikes, the empty string, well-formed literals padded with ASCII / Unicode whitespace or control characters or with one letter replaced by a character that case-folds to ASCII; either-zone literals are never used), built with cargo check --message-format=json; list macros get exactly one ill-formed element. Oracle: the ok-crate compiles (a compile error is mapped through the expansion chain to its invocation, reported, the invocation removed and the crate rebuilt) and every comparison is equal with no run-time panic; in the bad-crate the set of invocations carrying an error equals the set of all invocations. Non-trivial (ok) = literal with an extension, non-canonical case or separator, und, >= 2 variants or a list macro; every bad invocation counts. Distinct = hash set over (macro, literals).";
+pub const RULE: &str = "Domain: generated programs. ok-crate: N = 500 | 5000 invocations of langid! lang! script! region! variant! locale! (single literal) and langids! langid_slice! locales! (2-4 literals, every fifth list 8-40 literals, with and without trailing comma; single literals are followed by their one-character neighbours) on literals the reference model classifies as well-formed, spelled as plain, raw (r\"..\", r#\"..\"#) or escaped (\\x.., \\u{..}) string literals (proptest grammar strategies with random case / separator masks, und, every extension shape and order incl. tfields followed by -u-/-x-, duplicated and unsorted variants, boundary lengths), each compared at run time with parsing the same literal (==, to_string, hash, per element for lists) inside catch_unwind. bad-crate: M = 400 | 3000 invocations, one per function, on literals the reference puts in must-reject (near-miss mutations, wrong lengths / character classes, foreign and repeated singletons, non-ASCII look-alikes, the empty string, well-formed literals padded with ASCII / Unicode whitespace or control characters or with one letter replaced by a character that case-folds to ASCII; either-zone literals are never used), built with cargo check --message-format=json; list macros get exactly one ill-formed element. Oracle: the ok-crate compiles (a compile error is mapped through the expansion chain to its invocation, reported, the invocation removed and the crate rebuilt) and every comparison is equal with no run-time panic; in the bad-crate the set of invocations carrying an error equals the set of all invocations. Non-trivial (ok) = literal with an extension, non-canonical case or separator, und, >= 2 variants or a list macro; every bad invocation counts. Distinct = hash set over (macro, literals).";
 
 #[derive(Clone, Debug, PartialEq, Eq, Hash)]
 pub struct MCase {
@@ -583,7 +583,9 @@ fn collect(cfg: &Cfg, good: bool, n: usize, phase: &str) -> Vec<MCase> {
         // every 6th case becomes a list invocation
         let c = if idx % 6 == 0 && (mac == "langid" || mac == "locale") {
             let pool = if mac == "langid" { &pool_langid } else { &pool_locale };
-            let k = 1 + (mix(idx ^ ph) % 3) as usize;
+            // mostly short lists; now and then 8-40 elements (block-wise expansion, recursion
+            // limits, arms that count)
+            let k = if good && mix(idx ^ ph ^ 3) % 5 == 0 { 7 + (mix(idx ^ ph) % 33) as usize } else { 1 + (mix(idx ^ ph) % 3) as usize };
             let mut lits: Vec<String> = (0..k).map(|j| pool[(mix(idx.wrapping_mul(31) ^ j as u64 ^ ph) % pool.len() as u64) as usize].clone()).collect();
             let pos = (mix(idx ^ 77) % (lits.len() as u64 + 1)) as usize;
             lits.insert(pos, lit);
@@ -598,8 +600,24 @@ fn collect(cfg: &Cfg, good: bool, n: usize, phase: &str) -> Vec<MCase> {
         } else {
             MCase { mac, lits: vec![lit], trailing_comma: false, expect_ok: good }
         };
+        let single = if c.lits.len() == 1 { Some((c.mac.clone(), c.lits[0].clone())) } else { None };
         if seen.insert(c.clone()) {
             out.push(c);
+        }
+        // hidden state inside the macro implementation (a cache that lives for the whole
+        // compilation): the one-character neighbours of a literal are invoked right after it
+        if good && idx % 4 == 1 {
+            if let Some((mac, lit)) = single {
+                for nb in crate::gen::neighbour_bytes(lit.as_bytes()) {
+                    let Ok(nb) = String::from_utf8(nb) else { continue };
+                    if verdict(&mac, &nb) == Some(true) {
+                        let c2 = MCase { mac: mac.clone(), lits: vec![nb], trailing_comma: false, expect_ok: true };
+                        if seen.insert(c2.clone()) {
+                            out.push(c2);
+                        }
+                    }
+                }
+            }
         }
     }
     out
